@@ -261,6 +261,10 @@ def check(ctx):
     # 'one owner per pool slot' across the OgreUnique -> OgreArc conversion (shared with C14 R14.5 / R14.8): a conversion that lets the unique handle's Drop run frees
     # the slot the new shared handle still owns -- the slot is handed out twice (two accepted events in one slot) and freed twice
     __import__("importlib").import_module("props.C14").check_unique_to_shared(ctx, "R16.7")
+    # R16.8 'BUFFER_SIZE events can be outstanding again': a dropped listener's leftovers are discarded completely (they hold pool slots of the ogre_arc channels) -- the
+    # drain rule of C10 R10.1
+    import streamrules as _S
+    _S.check_drain_before_release(util.PrefixedCtx(ctx, "R16.8"), "drop")
     # ------------------------------------------------------------------ R16.3 exact capacity
     C02 = importlib.import_module("props.C02")
     class OnlyGuards(util.PrefixedCtx):
